@@ -9,7 +9,7 @@
  *   op     cmp:i:j  cz:i:<int>  cq:i:<n>/<d>  cd:i:<a>/<k>  sg:i  fl:i  ce:i  ii:i  db:i  rf:i:<k>  ha:i:<prec>  mi:i
  *          add:d:i:j  sub:d:i:j  mul:d:i:j  div:d:i:j  neg:d:i  inv:d:i  cp:d:i  rc:i  ps:k  pe:k  pr:k
  *
- * output (one line):  init | <rep0..rep5> | <floor, ceiling of 6 UNTOUCHED copies of the starting pool>
+ * output (one line):  init | <rep0..rep5> | <floor, ceiling, hash_approx(0), hash_approx(6) of 6 UNTOUCHED copies of the starting pool>
  *                     for every step   # <obs...> | <rep0..rep5> | <battery: 45 tokens> | <rep0..rep5>
  *                     $ <floor, ceiling of the untouched copies again>      (they are never used in between)
  *   obs      cmp/cz/cq/cd/sg: sign; fl/ce: integer; ii: 0/1; db: the double as an exact rational q:n/d; rf: -;
@@ -39,6 +39,8 @@ static void print_untouched(void) {
     lp_value_floor(&U[i], &z); putchar(' '); print_z(&z);
     lp_value_ceiling(&U[i], &z); putchar(' '); print_z(&z);
     lp_integer_destruct(&z);
+    /* hashes of the untouched copy (hash_approx works on the const value; floor / ceiling do not refine) */
+    printf(" %zu %zu", lp_value_hash_approx(&U[i], 0), lp_value_hash_approx(&U[i], 6));
   }
 }
 static const lp_value_t* S(int i) { return lp_assignment_get_value(M, pio_x[i]); }
